@@ -139,6 +139,11 @@ fn check_marker(r: &Rendered, shown: &str, col: usize) -> Result<(), String> {
 
 // ------------------------------------------------------------------ per-string checks
 
+/// A panic shows as the impossible span (MAX, MAX), which no reference equals.
+fn catch_opt(f: impl FnOnce() -> Option<(usize, usize)>) -> Option<(usize, usize)> {
+    catch(f).unwrap_or(Some((usize::MAX, usize::MAX)))
+}
+
 fn viol(stats: &mut Stats, class: &str, s: &str, a: usize, b: Option<usize>, what: String) {
     stats.violation_class(class, json!({"kind": class, "input": s, "offset": a, "end": b, "what": what}));
 }
@@ -234,6 +239,7 @@ fn check_string(s: &str, stats: &mut Stats, pairs_too: bool) {
     }
     // ---------------- spans: all offset pairs, ordered and unordered
     let all_lines = ref_lines(s);
+    let small = s.chars().count() <= 3;
     for a in 0..=len + 1 {
         for b in 0..=len + 1 {
             stats.inc("evaluations");
@@ -264,6 +270,88 @@ fn check_string(s: &str, stats: &mut Stats, pairs_too: bool) {
                     }
                     if st != s[a..b] || (s0, e0, sp0, ep0, sl0, sl1) != (a, b, a, b, a, b) {
                         viol(stats, "span-accessors", s, a, Some(b), format!("as_str {st:?} start {s0} end {e0}"));
+                    }
+                }
+            }
+            // the other span constructors: sub-ranges of this span, two positions, merging
+            if small {
+                let n = b - a;
+                for i in 0..=n + 1 {
+                    for j in 0..=n + 1 {
+                        stats.inc("evaluations");
+                        let ok = i <= j && j <= n && s.is_char_boundary(a + i) && s.is_char_boundary(a + j);
+                        let forms: Vec<(&str, Option<(usize, usize)>)> = vec![
+                            ("get(i..j)", catch_opt(|| sp.get(i..j).map(|x| (x.start(), x.end())))),
+                            ("get(i..=j-1)", if j >= 1 { catch_opt(|| sp.get(i..=j - 1).map(|x| (x.start(), x.end()))) } else { if ok { Some((a + i, a + j)) } else { None } }),
+                        ];
+                        for (name, got) in forms {
+                            let want = if ok { Some((a + i, a + j)) } else { None };
+                            if got != want {
+                                viol(stats, "span-get", s, a, Some(b), format!("{name} with i={i} j={j} on span {a}..{b}: {got:?}, reference {want:?}"));
+                            }
+                        }
+                        if j == n {
+                            let got = catch_opt(|| sp.get(i..).map(|x| (x.start(), x.end())));
+                            let want = if ok { Some((a + i, b)) } else { None };
+                            if got != want {
+                                viol(stats, "span-get", s, a, Some(b), format!("get({i}..) on span {a}..{b}: {got:?}, reference {want:?}"));
+                            }
+                        }
+                        if i == 0 {
+                            let got = catch_opt(|| sp.get(..j).map(|x| (x.start(), x.end())));
+                            let want = if ok { Some((a, a + j)) } else { None };
+                            if got != want {
+                                viol(stats, "span-get", s, a, Some(b), format!("get(..{j}) on span {a}..{b}: {got:?}, reference {want:?}"));
+                            }
+                        }
+                    }
+                }
+                // merge_spans with every other valid span
+                for c in 0..=len {
+                    for d in c..=len {
+                        let Some(other) = Span::new(s, c, d) else { continue };
+                        stats.inc("evaluations");
+                        let got = catch_opt(|| pest::merge_spans(&sp, &other).map(|x| (x.start(), x.end())));
+                        let want = if b >= c && a <= d { Some((a.min(c), b.max(d))) } else { None };
+                        if got != want {
+                            viol(stats, "merge-spans", s, a, Some(b), format!("merge_spans({a}..{b}, {c}..{d}) = {got:?}, reference {want:?}"));
+                        }
+                    }
+                }
+            }
+            {
+                // Position::span: the span between two positions in order
+                let got = catch(|| {
+                    let x = Position::new(s, a).unwrap().span(&Position::new(s, b).unwrap());
+                    (x.start(), x.end(), x.as_str().to_string())
+                });
+                if got != Ok((a, b, s[a..b].to_string())) {
+                    viol(stats, "position-span", s, a, Some(b), format!("Position::span gives {got:?}"));
+                }
+                // out of order there is no span to construct: it must not hand one out
+                if a < b {
+                    let got = catch(|| {
+                        let x = Position::new(s, b).unwrap().span(&Position::new(s, a).unwrap());
+                        (x.start(), x.end())
+                    });
+                    if let Ok(x) = got {
+                        viol(stats, "position-span-out-of-order", s, b, Some(a), format!("Position::span of positions {b} and {a} (out of order) returns the span {x:?}"));
+                    }
+                }
+            }
+            // pairs appended to a builder out of input order (each span valid on its own): line_col
+            if a < b {
+                match catch(|| {
+                    let top: Vec<(usize, usize)> = PairsBuilder::<u8>::new(s).rule(1, b, b).rule(2, a, a).build().map(|p| p.line_col()).collect();
+                    let nested: Vec<(usize, usize)> = PairsBuilder::<u8>::new(s).rule_with(1, a, a, |c| c.rule(2, b, b)).build().flatten().map(|p| p.line_col()).collect();
+                    (top, nested)
+                }) {
+                    Err(m) => viol(stats, "pair-line-col-panics", s, a, Some(b), m),
+                    Ok((top, nested)) => {
+                        let (la, lb) = (ref_line_col(s, a), ref_line_col(s, b));
+                        if top != vec![lb, la] || nested != vec![la, lb] {
+                            viol(stats, "pair-line-col", s, a, Some(b), format!("builder pairs out of input order: line_col {top:?} / {nested:?}, reference {:?} / {:?}", vec![lb, la], vec![la, lb]));
+                        }
                     }
                 }
             }
